@@ -319,8 +319,28 @@ def run_cases(ctx, harness_exe, driver_exe, args, tag, timeout=1500, env=None):
     rc, out = sh([harness_exe] + [str(a) for a in args] + [cases], timeout=timeout, env=env)
     if rc != 0:
         raise HarnessCrash("harness %s exited %d" % (os.path.basename(harness_exe), rc), out, cases)
+    if driver_exe is None:
+        fails = []
+        n = 0
+        with open(cases) as fa:
+            for i, a in enumerate(fa):
+                if a.startswith("#"):
+                    continue
+                if a.startswith("!"):
+                    fails.append((i + 1, a.rstrip("\n")))
+                else:
+                    n += 1
+        return n, [], fails, cases
     with open(cases) as fi, open(model, "w") as fo:
-        p = subprocess.run([driver_exe], stdin=fi, stdout=fo, stderr=subprocess.PIPE, text=True, timeout=timeout)
+        def _big_stack():
+            import resource
+            try:
+                resource.setrlimit(resource.RLIMIT_STACK, (resource.RLIM_INFINITY, resource.RLIM_INFINITY))
+            except Exception:
+                pass
+        # extracted Coq functions recurse non-tail over long lists / dense tables: give the driver an unlimited stack
+        p = subprocess.run([driver_exe], stdin=fi, stdout=fo, stderr=subprocess.PIPE, text=True, timeout=timeout,
+                           preexec_fn=_big_stack)
     if p.returncode != 0:
         raise BuildFailure("model driver failed: " + p.stderr[-2000:])
     mism = []
@@ -521,7 +541,15 @@ def standard_run(ctx, mod):
     for r in mod.corr_runs(ctx):
         fl = r.get("flavour", "O1")
         libdir = lib if fl == "O1" else build_repo(ctx, fl)
-        drv = build_driver(ctx, r["driver"], needs_vo=r.get("needs_vo", ()))
+        drv = None
+        try:
+            drv = build_driver(ctx, r["driver"], needs_vo=r.get("needs_vo", ()))
+        except BuildFailure as e:
+            # the model no longer builds (e.g. a regenerated definition broke it): the tie is broken, but the
+            # search on the implementation still runs so that a concrete failing input can be reported
+            ctx.say("model driver does not build:", e)
+            ctx.proof["failed"].append({"what": "model/driver build failed", "error": (getattr(e, "out", "") or "")[-2500:]})
+            proof_ok = False
         h = build_harness(ctx, r["harness"], libdir, fl, extra=r.get("cxx_extra", ()))
         n, mism, fails, cases = run_cases(ctx, h, drv, r["args"], r["tag"], timeout=r.get("timeout", 3000), env=r.get("env"))
         ctx.say("%s: %d cases, %d disagreements, %d direct failures" % (r["tag"], n, len(mism), len(fails)))
